@@ -162,6 +162,9 @@ pub enum Notice {
 	/// retrying acquisition found waiting while holding
 	HoldAndWait { tid: Tid, lid: Lid, frame: u32, held: Vec<Lid> },
 	StepCap,
+	/// ThreadKey::get() would have handed out a key at a raw operation issued
+	/// while the thread holds locks
+	KeyFreeWhileHolding { tid: Tid, lid: Lid, op: Op, frame: u32, held: Vec<(Lid, bool)> },
 }
 
 #[derive(Clone, Debug, Default, Serialize, Deserialize, PartialEq)]
@@ -361,6 +364,14 @@ impl Exec {
 		g.cur_frame[tid as usize] = id;
 		g.frame_ops[tid as usize] = 0;
 		id
+	}
+
+	pub fn frame_label(&self, frame: u32) -> String {
+		let g = self.lock();
+		if frame == 0 {
+			return "no API call".to_string();
+		}
+		g.frames.get(frame as usize - 1).map(|f| f.label.clone()).unwrap_or_default()
 	}
 
 	pub fn end_call(&self, tid: Tid) {
@@ -640,6 +651,12 @@ pub fn raw_op(lid: Lid, op: Op) -> bool {
 		// no execution installed: behave as an always-free lock
 		return true;
 	};
+	// a raw lock is user code: it may ask for the thread's key.  While the
+	// thread holds anything the key must not be obtainable (getting and
+	// dropping it here leaves the key cell as it was)
+	if happylock::ThreadKey::get().is_some() {
+		exec.note_key_free(tid, lid, op);
+	}
 	let d = exec.raw_op_inner(tid, lid, op);
 	match d {
 		Decision::Done(b) => {
@@ -669,6 +686,18 @@ pub fn raw_op(lid: Lid, op: Op) -> bool {
 }
 
 impl Exec {
+	fn note_key_free(&self, tid: Tid, lid: Lid, op: Op) {
+		let mut g = self.lock();
+		if g.abort {
+			return;
+		}
+		let held = g.held_by(tid);
+		if !held.is_empty() {
+			let frame = g.cur_frame.get(tid as usize).copied().unwrap_or(0);
+			g.notices.push(Notice::KeyFreeWhileHolding { tid, lid, op, frame, held });
+		}
+	}
+
 	fn raw_op_inner(&self, tid: Tid, lid: Lid, op: Op) -> Decision {
 		let mut g = self.lock();
 		if g.abort {
